@@ -24,6 +24,10 @@ def run_gen(w, op, cfg=None):
     after = w.fs.snapshot()
     changed = sorted(k for k in set(before) | set(after) if before.get(k) != after.get(k))
     wopens = [e[2] for e in out["fs_events"] if is_write_open(e)]
+    if not wopens and changed:
+        # written through a door SimFS does not interpose (os.open, a C extension): the
+        # snapshot still shows it; treat the changed files as the ones opened for writing
+        wopens = list(changed)
     return out, before, after, changed, wopens
 
 
